@@ -21,7 +21,8 @@ type traceScen struct {
 var traceLens = []int{0, 0, 1, 2, 3, 4, 5, 7, 8, 8, 11, 12, 13, 15, 16, 17, 20, 28, 31, 32, 33, 47, 48, 60, 64, 100,
 	239, 240, 241, 255, 256, 1000, 4079, 4080, 4096, 5000, 65519, 65520, 65536, 70001}
 
-func randScenario(rnd *rand.Rand, big bool) traceScen {
+// big: 0 = bodies up to 300 bytes, 1 = at least one body of 4..5 KB, 2 = bodies up to 70 KB
+func randScenario(rnd *rand.Rand, big int) traceScen {
 	var s traceScen
 	q := runReq{Op: "run", Enc: rnd.Intn(2) == 0, Ver: rnd.Intn(3), Unlock: rnd.Intn(4) == 0}
 	if rnd.Intn(2) == 0 {
@@ -46,13 +47,19 @@ func randScenario(rnd *rand.Rand, big bool) traceScen {
 			if rnd.Intn(4) == 0 {
 				p.Tp = []uint32{0, 4, 1, 0x7acb87aa, 0x7682eef5, 0x5730a2de, 0xffffffff}[rnd.Intn(7)]
 			}
-			if big || rnd.Intn(3) > 0 {
+			if big == 2 || rnd.Intn(3) > 0 {
 				p.Len = traceLens[rnd.Intn(len(traceLens))]
 			} else {
 				p.Len = rnd.Intn(40)
 			}
-			if !big && p.Len > 5000 {
+			if big < 2 && p.Len > 300 {
 				p.Len = rnd.Intn(300)
+			}
+			if big == 1 && i == n/2 {
+				p.Len = []int{4079, 4080, 4096, 5000, 4100}[rnd.Intn(5)]
+				if q.Ver == 0 {
+					p.Len &^= 3
+				}
 			}
 			if q.Ver == 0 && rnd.Intn(4) > 0 {
 				p.Len &^= 3
@@ -177,7 +184,13 @@ func randomTraces(c *core.Ctx, pl *pool, rnd *rand.Rand) error {
 	outcomes := map[string]int{}
 	nruns := 0
 	for i := 0; i < nScen; i++ {
-		s := randScenario(rnd, c.Thorough() && i%4 == 0)
+		big := 0
+		if i%4 == 0 {
+			big = c.Pick(1, 2)
+		} else if i%4 == 1 && c.Thorough() {
+			big = 1
+		}
+		s := randScenario(rnd, big)
 		// first run, uncorrupted and unchunked, tells the layout
 		var base runResp
 		if err := pl.call(s.req, &base); err != nil {
